@@ -120,7 +120,16 @@ func check(id, tier string) (code int) {
 		l.Config = p.Config()
 		names = append(names, p.Config())
 		pkgs = p.NumPackages()
-		prop.Run(&rules.Ctx{P: p, L: l, Tier: tier})
+		func() {
+			// a rule that cannot cope with the shape of the code is "undecided", not a pass
+			defer func() {
+				if r := recover(); r != nil {
+					fmt.Fprintf(os.Stderr, "gsa: a rule of %s panicked: %v\n%s\n", id, r, debug.Stack())
+					l.Record(core.Undecided, id+".internal", "-", "rule evaluation", "-", fmt.Sprintf("the analyser could not evaluate a rule on this tree (%v); nothing is concluded from it", r))
+				}
+			}()
+			prop.Run(&rules.Ctx{P: p, L: l, Tier: tier})
+		}()
 		p = nil
 		debug.FreeOSMemory()
 	}
